@@ -216,3 +216,90 @@ Theorem C02_code_policy_calculator_of_a_model_without_filters :
   = decision_g dst dch cst cch uf colsD colsC.
 Proof. exact decision_is_the_policy_calculators. Qed.
 Print Assumptions C02_code_policy_calculator_of_a_model_without_filters.
+
+(* ---- EVERY ROW OF WHAT simulate RETURNS ------------------------------------------------------------------------------ *)
+From LCM Require Import Model.RandomChoice Proofs.C14_OnLayout Proofs.C04_SimulateLoop Proofs.C01_Solve Proofs.C02_SimulateAll.
+(* the_sim (Proofs/C02_SimulateAll.v) is the regenerated forward loop of simulate (Gen/Simulate.v) with: the decision of  *)
+(* the theorem above as the decision block of every period (u_and_f of period t on the array of period t+1, the            *)
+(* last-period function in the last period), the arrays of the regenerated solve (code_solve, C01) as value arrays, an     *)
+(* arbitrary law of motion `trans` (C03's subject) and arbitrary initial states.  For every period t and agent i, the      *)
+(* recorded value is the specification's value_at of the state the agent is in at t, and, unless it is -inf, the recorded  *)
+(* choice passes all filters and constraints at that state and its objective IS the recorded value -- the next value       *)
+(* function being the solved array of period t+1 (which is the specification's solve_spec,                                *)
+(* C01_lcm_solve_is_the_specifications_solve).  Hypotheses about the trajectory (decidable: trajectory_okb, proved sound): *)
+(* the state columns keep their format and the model evaluates at every (agent, choice) point the decision looks at.       *)
+Theorem C02_every_simulated_row_is_a_feasible_maximiser :
+  forall (m : model) (p : params) (n : nat) (dch cch : list (string * grid)),
+  let dst := dstates (states m) in let cst := cstates (states m) in
+  Permutation (dch ++ cch) (choices m) -> NoDup (map fst (choices m)) -> NoDup (map fst (states m)) -> grids_valid (states m) ->
+  NoDup (map fst (dst ++ dch ++ cst ++ cch)) -> (1 <= n)%nat ->
+  forall (nag : nat) (trans : S_states -> list (list nat * list nat) -> nat -> list key -> S_states)
+         (initial : S_states) (seed : nat) (prng : nat -> key) (n_stoch : nat),
+  let st := states_at m p n dch cch nag trans initial seed prng n_stoch in
+  (forall t, (t < n)%nat ->
+     length (fst (st t)) = length dst /\ length (snd (st t)) = length cst /\
+     Forall (fun c : list Q => length c = nag) (fst (st t) ++ snd (st t)) /\ (fst (st t) ++ snd (st t))%list <> []) ->
+  (forall t i dc cc, (S t < n)%nat -> (i < nag)%nat -> in_bounds (sizes dch) dc -> in_bounds (sizes cch) cc ->
+     evaluates_at m p (next_table m p n dch cch t) (agent_env t dst dch cst cch (fst (st t)) (snd (st t)) i dc cc)) ->
+  (forall t i dc cc, S t = n -> (i < nag)%nat -> in_bounds (sizes dch) dc -> in_bounds (sizes cch) cc ->
+     exists u, eval_fun (depth m) m p (agent_env t dst dch cst cch (fst (st t)) (snd (st t)) i dc cc) "utility" = Some u) ->
+  forall t i, (t < n)%nat -> (i < nag)%nat ->
+  let V := row_value m p n dch cch nag trans initial seed prng n_stoch t i in
+  let ch := row_choice m p n dch cch nag trans initial seed prng n_stoch t i in
+  let cD := fst (row_states m p n dch cch nag trans initial seed prng n_stoch t) in
+  let cC := snd (row_states m p n dch cch nag trans initial seed prng n_stoch t) in
+  let vnext := fun idx => VFin (next_table m p n dch cch t idx) in
+  let last := (t =? n - 1)%nat in
+  row_states m p n dch cch nag trans initial seed prng n_stoch t = st t /\
+  veq V (value_at m p t last vnext (agent_state dst cst cD cC i)) /\
+  (V <> VNegInf ->
+   in_bounds (sizes dch) (fst ch) /\ in_bounds (sizes cch) (snd ch) /\
+   feasible m p (agent_env t dst dch cst cch cD cC i (fst ch) (snd ch)) = true /\
+   veq (objective m p last vnext (agent_env t dst dch cst cch cD cC i (fst ch) (snd ch))) V).
+Proof.
+  intros m p n dch cch dst cst H1 H2 H3 H4 H5 H6 nag trans initial seed prng n_stoch st F1 F2 F3 t i Ht Hi. cbv zeta.
+  split.
+  - exact (proj1 (row_unfold m p n dch cch H6 nag trans initial seed prng n_stoch t i Ht Hi)).
+  - exact (every_simulated_row_is_a_feasible_maximiser m p n dch cch H1 H2 H3 H4 H5 H6 nag trans initial seed prng n_stoch F1 F2 F3 t i Ht Hi).
+Qed.
+Print Assumptions C02_every_simulated_row_is_a_feasible_maximiser.
+
+(* ---- the trajectory of that loop ---------------------------------------------------------------------------------- *)
+(* with the decision block of C02's theorem and an arbitrary law of motion `trans`: period 0 starts from the supplied      *)
+(* initial states, and the states of period t+1 are `trans` applied to the states the agents were in at t, the choices     *)
+(* RECORDED for t (those of C02's rows), the period t and period t's draw keys                                              *)
+Theorem C02_code_trajectory_uses_the_recorded_choices :
+  forall (m : model) (p : params) (n : nat) (dch cch : list (string * grid)), (1 <= n)%nat ->
+  forall (nag : nat) (trans : S_states -> list (list nat * list nat) -> nat -> list key -> S_states)
+         (initial : S_states) (seed : nat) (prng : nat -> key) (n_stoch : nat),
+  states_at m p n dch cch nag trans initial seed prng n_stoch 0 = initial /\
+  forall t, (t < n)%nat ->
+    states_at m p n dch cch nag trans initial seed prng n_stoch (S t)
+    = trans (states_at m p n dch cch nag trans initial seed prng n_stoch t)
+            (map (fun i => row_choice m p n dch cch nag trans initial seed prng n_stoch t i) (seq 0 nag)) t
+            (sim_draw_keys (the_sim m p n dch cch nag trans initial seed prng n_stoch) t).
+Proof. intros m p n dch cch Hn nag trans initial seed prng n_stoch. exact (trajectory_of_the_states m p n dch cch Hn nag trans initial seed prng n_stoch). Qed.
+Print Assumptions C02_code_trajectory_uses_the_recorded_choices.
+
+(* non-vacuity: two periods, two off-grid agents, a law of motion that moves both states; the trajectory hypotheses hold    *)
+(* (decided), the rows computed                                                                                              *)
+Definition dec_trans (st : S_states) (ch : list (list nat * list nat)) (t : nat) (ks : list key) : S_states :=
+  let hcol := hd [] (fst st) in let wcol := hd [] (snd st) in
+  ([map (fun h => 1 - h) hcol],
+   [map (fun wi : Q * (list nat * list nat) =>
+           fst wi - grid_point (GLin 0 2 5) (hd 0%nat (snd (snd wi))) + (1 # 2) * Qofnat (hd 0%nat (fst (snd wi))))
+        (combine wcol ch)]).
+Definition dec_init : S_states := ([[0; 1]], [[1 # 3; 3 # 2]]).
+Definition dec_prng (s : nat) : key := [].
+Example C02_simulation_nonvacuous :
+  let dch := [("d", GDisc 2)] in let cch := [("c", GLin 0 2 5)] in
+  NoDup (map fst (dstates (states dec_model) ++ dch ++ cstates (states dec_model) ++ cch)) /\
+  trajectory_okb dec_model dec_params 2 dch cch 2 dec_trans dec_init 0 dec_prng 1 = true /\
+  map (fun t => (map (fun i => (vred (row_value dec_model dec_params 2 dch cch 2 dec_trans dec_init 0 dec_prng 1 t i),
+                                row_choice dec_model dec_params 2 dch cch 2 dec_trans dec_init 0 dec_prng 1 t i)) [0; 1]%nat,
+                 row_states dec_model dec_params 2 dch cch 2 dec_trans dec_init 0 dec_prng 1 t)) [0; 1]%nat
+  = [([(VFin (103 # 80), ([1%nat], [0%nat])); (VFin (79 # 20), ([1%nat], [0%nat]))], ([[0; 1]], [[1 # 3; 3 # 2]]));
+     ([(VFin (19 # 12), ([1%nat], [2%nat])); (VFin 2, ([0%nat], [4%nat]))], ([[1; 0]], [[5 # 6; 8 # 4]]))].
+Proof.
+  cbv zeta. split; [repeat constructor; simpl; intuition discriminate|]. split; vm_compute; reflexivity.
+Qed.
